@@ -43,6 +43,17 @@ McSpec == Init /\ [][McNext]_vars
 Total == act.op = "load" =>
             \A a \in McActs : \E c \in Cand(a, stack, temp) : Rel(a, stack, temp, c.r, c.s, c.t)
 
+\* "mu random ones": the relation of RandomReplacement prefers no position -- for every mu,
+\* every choice of min(mu, n) positions of parents ++ offspring is an allowed result
+At(s, S) == LET RECURSIVE Go(_)
+                Go(i) == IF i > Len(s) THEN <<>> ELSE (IF i \in S THEN <<s[i]>> ELSE <<>>) \o Go(i + 1)
+            IN Go(1)
+RandomAnySubset ==
+    (Mode = "repl" /\ act.op = "load" /\ Len(stack) >= 2) =>
+        LET par == Under(stack)  off == Top(stack)  tot == par \o off IN
+        \A mu \in 0..MaxN : \A S \in SUBSET (DOMAIN tot) :
+            Cardinality(S) = Min2(mu, Len(tot)) => OkRepl(A("random_repl", mu, 0), par, off, At(tot, S))
+
 \* input-space export: one line per (loaded stack, enabled call)
 ExportNext == \E a \in McActs :
                  IF a.op = "load" THEN \E c \in Cand(a, stack, temp) : Step(a, c.r, c.s, c.t)
